@@ -28,7 +28,7 @@ ASSUMPTIONS = ["alpha, cover distances from scipy NNLS with certificates",
 N = {"quick": 260, "thorough": 8000}
 REQUIRE = {"quick": {"smallmij_events": 3000, "delta_events": 200, "cover_decisive_true": 200,
                      "cover_decisive_false": 200, "f1_events": 300, "f1_monotone_pairs": 300,
-                     "unequal_alpha_cones": 60, "hv_events": 24, "uncovered_events": 100, "integer_dtype_value_sets": 20}}
+                     "unequal_alpha_cones": 60, "hv_events": 24, "uncovered_events": 100, "integer_dtype_value_sets": 20, "non_unit_row_cones": 20}}
 TIMEOUT = {"quick": 900, "thorough": 5400}
 
 D1_W = [[1, 0, 0], [0, 1, 0], [0, -0.6, 0.8]]
@@ -363,6 +363,16 @@ def shard(mon, tier, rng, shard_no, nshards):
             # cones with strongly unequal alpha: one acute and one obtuse facet pair
             label, order = "unequal3", gen.make_order("W", W=np.array(D1_W, float))
             m = 3
+        if it % 6 == 3:
+            # the same cone described by facet rows that are NOT unit normals (positive row factors, or small integers): every
+            # definition in the statement is geometric, so nothing may depend on the row norms — seeded/V07
+            W0 = np.asarray(order.ordering_cone.W, float)
+            if rng.random() < 0.5:
+                W2 = W0 * rng.choice([0.25, 0.5, 2.0, 3.0, 5.0, 8.0], size=(len(W0), 1))
+            else:
+                W2 = W0 * float(rng.choice([0.2, 3.0, 4.0, 10.0]))
+            label, order = label + "-rowscaled", gen.make_order("W", W=W2)
+            mon.count("non_unit_row_cones")
         W = order.ordering_cone.W
         scale = gen.rand_scale(rng)
         X = value_set(rng, m, W, int(rng.integers(2, 41 if it % 4 else 13)), scale)
